@@ -125,7 +125,12 @@ WallPts(u) == IF MaxAbsV(u) <= 3000
 (***************************************************************************)
 EllAngles == {<<3, 4, 5>>, <<0 - 1, 0, 1>>, <<4, 0 - 3, 5>>}                                     \* (cos, sin) = (a/c, b/c)
              \cup (IF Rich THEN {<<5, 12, 13>>, <<0, 1, 1>>, <<0 - 3, 0 - 4, 5>>} ELSE {})
-LoxParams == {<<2, 1>>, <<1, 2>>, <<11, 10>>} \cup (IF Rich THEN {<<3, 2>>, <<5, 1>>, <<1, 4>>} ELSE {})      \* lambda = p/q
+LoxSeq == <<<<2, 1>>, <<1, 2>>, <<11, 10>>>> \o (IF Rich THEN <<<<3, 2>>, <<5, 1>>, <<1, 4>>>> ELSE <<>>)       \* lambda = p/q
+LoxParams == {LoxSeq[i] : i \in 1..Len(LoxSeq)}
+\* involutions of determinant -1 that are NOT reflections (dimension >= 3): the last k spatial coordinates
+\* negated, k = 3 (the point inversion of H^3; a half-turn about a plane composed with a reflection in H^4)
+InvolKs == IF N >= 3 THEN {3} ELSE {}
+Invol(k) == SignedPerm([i \in 1..N |-> <<i, IF i > N - k THEN 0 - 1 ELSE 1>>])
 ParaParams == {1, 0 - 1} \cup (IF Rich THEN {2} ELSE {})
 ReflTargets == {Pad(<<1, 1, 1>>), Pad(<<1, 0, 0 - 2>>)}
                \cup (IF Rich THEN {Pad(<<0, 1>>), Pad(<<0, 1, 1>>)} ELSE {})
@@ -171,6 +176,8 @@ TargetsSound ==
                               /\ ~IsReflection(P)
   /\ \A v \in ReflTargets \cup ReflNormals : MNorm(v) > 0 /\ IsReflection(Refl(v)) /\ NormalOf(Refl(v)) = Prim(v)
   /\ ~IsReflection(Ident)
+  /\ \A k \in InvolKs : /\ Mul(Invol(k), Invol(k)) = Ident /\ Det(Invol(k)[1]) = 0 - 1       \* an orientation reversing involution
+                         /\ Trace(Invol(k)[1]) = Dim - 2 * k /\ ~IsReflection(Invol(k))      \* whose (-1)-eigenspace is too big
 ASSUME TargetsSound
 
 (***************************************************************************)
@@ -225,6 +232,12 @@ ReflLaw(v) == LET C == ConjG(g, Refl(v))
      /\ IsReflection(C) /\ NormalOf(C) = Prim(u) /\ MNorm(u) > 0
      /\ MatVec(C[1], u) = VScale(0 - C[2], u)
      /\ \A w \in WallPts(Prim(u)) : NormFits(w) => (MDot(w, u) = 0 /\ InBall(w) /\ (FitsV(C[1], w) => FixedBy(C, w)))
+InvolLaw(k, gi) == LET C == ConjG(g, Invol(k)) IN
+  (C # <<>> /\ Fits(C[1], C[1]) /\ FitsV(C[1], gi[E1])) =>
+     /\ Mul(C, C) = Ident /\ ~IsReflection(C) /\ FixedBy(C, gi[E1])
+     /\ DetSafe(C[1]) => Det(C[1]) = 0 - IPow(C[2], Dim)
+\* the matrix -M is another representative of the same isometry: the projective action does not see the sign
+NegRepLaw(gi) == \A x \in Probe : Prim(MatVec(MatScale(0 - 1, g[1]), x)) = Prim(gi[x])
 LawState == exact /\ Tame(g)
 FixLaws == LawState =>
   LET gi == [x \in Probe |-> Img(g, x)]
@@ -234,8 +247,28 @@ FixLaws == LawState =>
      /\ \A t \in LoxParams : LoxLaw(t, gi, pb)
      /\ \A k \in ParaParams : ParaLaw(k, gi, pb)
      /\ \A v \in ReflTargets : ReflLaw(v)
+     /\ \A k \in InvolKs : InvolLaw(k, gi)
+     /\ NegRepLaw(gi)
 ASSUME \A x \in Probe : MaxAbsV(x) <= 5
 ASSUME {E1, Ap, Am} \subseteq Probe
+
+(***************************************************************************)
+(* A composite isometry (the array of the loxodromic conjugates of the     *)
+(* state, in the order LoxSeq) under queries and item assignment: a query  *)
+(* changes nothing, SetItem(k, t) replaces entry k.  What every query must *)
+(* report is determined by the CURRENT array alone.                        *)
+(***************************************************************************)
+ArrOps == <<[op |-> "query"], [op |-> "setitem", k |-> 1, t |-> LoxSeq[2]], [op |-> "query"],
+            [op |-> "setitem", k |-> Len(LoxSeq), t |-> LoxSeq[1]], [op |-> "setitem", k |-> 2, t |-> LoxSeq[3]], [op |-> "query"]>>
+ArrStep(arr, o) == IF o.op = "setitem" THEN [arr EXCEPT ![o.k] = o.t] ELSE arr
+RECURSIVE ArrAfter(_)
+ArrAfter(i) == IF i = 0 THEN LoxSeq ELSE ArrStep(ArrAfter(i - 1), ArrOps[i])          \* array after the first i operations
+ArrExpected(arr) == [i \in 1..Len(arr) |-> [p |-> arr[i][1], q |-> arr[i][2], attr |-> Act(g, Attr(arr[i])), rep |-> Act(g, Rep(arr[i]))]]
+ArrSound == \A i \in 1..Len(ArrOps) :
+               /\ ArrOps[i].op = "query" => ArrAfter(i) = ArrAfter(i - 1)
+               /\ ArrOps[i].op = "setitem" => (ArrAfter(i) # ArrAfter(i - 1) /\ ArrAfter(i)[ArrOps[i].k] = ArrOps[i].t
+                                                /\ \A j \in 1..Len(LoxSeq) : j # ArrOps[i].k => ArrAfter(i)[j] = ArrAfter(i - 1)[j])
+ASSUME ArrSound
 
 \* the expected fixed data of the current state, read by the harness
 ReflObs(v) == LET u == Prim(Img(g, v)) IN [v |-> v, normal |-> u, wallpts |-> WallPts(u), ends |-> GeoEnds(u)]
@@ -245,12 +278,13 @@ FixObs ==
         origin |-> Act(g, E1), perp |-> <<Prim(Img(g, EV(2))), Prim(Img(g, EV(3)))>>,
         lox |-> {[p |-> t[1], q |-> t[2], attr |-> Act(g, Attr(t)), rep |-> Act(g, Rep(t))] : t \in LoxParams},
         para |-> Act(g, Ap),
+        arr |-> [i \in 1..Len(ArrOps) |-> [op |-> ArrOps[i], after |-> ArrExpected(ArrAfter(i))]],
         refl |-> {ReflObs(v) : v \in ReflTargets},
         isrefl |-> IsReflection(g),
         normal |-> IF IsReflection(g) THEN NormalOf(g) ELSE <<>>]
   ELSE [g |-> g, kind |-> kind, len |-> len, tame |-> (kind = "coset" /\ Tame(g)), size |-> MaxAbs(g[1]), origin |-> Act(g, E1)]
 ObsFix == PrintT("OBS " \o ToJson(FixObs))
-ASSUME PrintT("TARGETS " \o ToJson([ell |-> EllAngles, para |-> ParaParams]))
+ASSUME PrintT("TARGETS " \o ToJson([ell |-> EllAngles, para |-> ParaParams, invol |-> InvolKs, loxseq |-> LoxSeq, reps |-> {1, 0 - 1}]))
 
 (***************************************************************************)
 (* (B) the wall machine                                                    *)
@@ -266,6 +300,8 @@ ConjBy(a) == /\ len = 1 /\ len < MaxLen /\ a \in ExactAtoms
              /\ last' = [a |-> "conj", atom |-> a]
 NextWall == ReflectAcross \/ \E a \in ExactAtoms : ConjBy(a)
 
+\* a wall is a projective class: every non-zero multiple of the normal names it
+WallScales == {2, 0 - 3}
 WallLaws == len >= 1 =>
   /\ g = Refl(wall)                                        \* the reflection held is the reflection of the wall held
   /\ NormalOf(g) = wall                                    \* ... and the wall is recovered from the matrix alone
@@ -277,7 +313,8 @@ WallLaws == len >= 1 =>
   /\ \A x \in TestPts : FixedBy(g, x) <=> MDot(x, wall) = 0          \* fixes exactly the wall
   /\ \A w \in GeoEnds(wall) : MNorm(w) = 0
   /\ (N = 2 /\ IsSq(MNorm(wall))) => Cardinality(GeoEnds(wall)) = 2
-WallObs == [g |-> g, len |-> len, wall |-> wall, wallpts |-> WallPts(wall), ends |-> GeoEnds(wall), sq |-> IsSq(MNorm(wall))]
+  /\ len = 1 => \A c \in WallScales : Prim(VScale(c, wall)) = wall /\ Refl(VScale(c, wall)) = g      \* any representative of the normal
+WallObs == [g |-> g, len |-> len, wall |-> wall, reps |-> {VScale(c, wall) : c \in WallScales}, wallpts |-> WallPts(wall), ends |-> GeoEnds(wall), sq |-> IsSq(MNorm(wall))]
 ObsWall == len = 0 \/ PrintT("OBS " \o ToJson(WallObs))
 
 EmitFix == PrintT("EMIT " \o ToJson([from |-> [g |-> g, kind |-> kind, len |-> len, wall |-> wall], act |-> last',
